@@ -75,6 +75,8 @@ def spaces(tier):
     out.append(cs.db_space(2, cs.ZERO[2], 0, cli=True))
     for combo in cs.ODD:
         out.append(cs.db_space(4, combo, 1))
+    for combo in cs.LONGSTEP:
+        out.append(cs.db_space(3 if tier == 'quick' else 4, combo, 1))
     out.append(cs.sequence_space(3 if tier == 'quick' else 4))
     out.append(cs.sequence_space(3 if tier == 'quick' else 4, dataset=3))
     return out
